@@ -286,6 +286,21 @@ class Engine:
             self.hyps.append(lit.p); self.hyp_tags.append('forced')
         return d
 
+    def known(self, a):
+        """True if the path condition (as linearised) implies the atom, False if it implies its negation, else None"""
+        if isinstance(a, (bool, np.bool_)):
+            return bool(a)
+        if a.is_const():
+            return a.const_value()
+        which, e = self._encode(a)
+        ct, _ = self._check(which, e)
+        if not ct:
+            return False
+        cf, _ = self._check(which, z3.Not(e))
+        if not cf:
+            return True
+        return None
+
     def choose(self, n, label=None):
         """engine-level n-way choice (small discrete structure), explored exhaustively"""
         if n <= 0:
